@@ -5,9 +5,10 @@ C15  ODS sheets are read as the logical table they contain.
 `odsRows` is the transcription of `rowio.ods_rows` over an ElementTree-shaped tree; `encodeDoc f d`
 stores a document `d` (sheets of rows of cell texts) as ODF content using the optional features `f`.
 Full statement (target): `odsRows (encodeDoc f d) k = rows of the k-th sheet` for every `f`.
-On the current code this holds — and is proved — for every document when at most the column-run
-compression is used (`C15_decode_encode_partial`); for each of the other four features a proved
-counterexample shows the reader returning something else (open known findings).
+Since the repair of the cell text extraction this holds - and is proved - for every document and every
+combination of column runs, white-space elements (`text:s`, `text:tab`, `text:line-break`), `text:span` mark-up and
+several paragraphs per cell (`C15_decode_encode`); row runs (`table:number-rows-repeated`) are still not expanded:
+a proved counterexample (open known finding).
 -/
 namespace Cutplace.Props
 open Cutplace Cutplace.Spec
@@ -27,12 +28,14 @@ theorem tables_of_encodeDoc (f : OdsFeatures) (d : OdsDoc) :
   rw [hmap]
   exact filter_tag_map _ "table:table" _ (fun a => rfl)
 
-/-- **Partial.** For every document, every sheet number inside it and any encoding that uses at most
-column runs (`table:number-columns-repeated`), reading sheet `k` returns exactly the rows and cell
-texts of the k-th sheet (empty cells as empty strings).  Rows are narrower than `10 ^ 4300` cells: a
-repeat count with more digits than that is beyond CPython's `int()` conversion limit. -/
-theorem C15_decode_encode_partial (f : OdsFeatures) (hf : f.plain) (d : OdsDoc) (k : Nat) (hk1 : 1 ≤ k) (hk2 : k ≤ d.length)
-    (hsmall : ∀ r ∈ d[k - 1]'(by omega), r.length < 10 ^ maxStrDigits) :
+/-- **For every document, every sheet number inside it and every encoding that does not use row runs** - column runs
+(`table:number-columns-repeated`), blanks / tabs / line breaks stored as `text:s` / `text:tab` / `text:line-break`, text
+wrapped in `text:span`, lines stored as separate `text:p`, in any combination - reading sheet `k` returns exactly the rows
+and cell texts of the k-th sheet (empty cells as empty strings).  Rows are narrower and cell texts shorter than
+`10 ^ 4300`: a repeat count with more digits than that is beyond CPython's `int()` conversion limit. -/
+theorem C15_decode_encode (f : OdsFeatures) (hf : f.rowRuns = false) (d : OdsDoc) (k : Nat) (hk1 : 1 ≤ k) (hk2 : k ≤ d.length)
+    (hsmall : ∀ r ∈ d[k - 1]'(by omega), r.length < 10 ^ maxStrDigits)
+    (hcells : ∀ r ∈ d[k - 1]'(by omega), ∀ t ∈ r, t.length < 10 ^ maxStrDigits) :
     odsRows (some (encodeDoc f d)) k = .rows ((d[k - 1]'(by omega)).map (·.map some)) := by
   unfold odsRows
   simp only [tables_of_encodeDoc, List.length_map, List.length_zipIdx]
@@ -45,13 +48,12 @@ theorem C15_decode_encode_partial (f : OdsFeatures) (hf : f.plain) (d : OdsDoc) 
     simp [this]
   rw [hget]
   simp only []
-  obtain ⟨hr, _, _, _⟩ := hf
   have hrows : (encodeSheet f ("Sheet" ++ toString (k - 1 + 1)) (d[k - 1]'(by omega))).childrenTagged "table:table-row" =
       (d[k - 1]'(by omega)).map (fun r => encodeRow f r 1) := by
     unfold encodeSheet Xml.childrenTagged Xml.children
-    simp only [hr, Bool.false_eq_true, if_false]
+    simp only [hf, Bool.false_eq_true, if_false]
     exact filter_tag_map _ "table:table-row" _ (fun a => rfl)
-  rw [hrows, odsRowsOf_encoded f ⟨hr, by assumption, by assumption, by assumption⟩ _ hsmall]
+  rw [hrows, odsRowsOf_encoded f _ hsmall hcells]
 
 /-- Requesting a sheet the document does not have fails with a data-format error. -/
 theorem C15_missing_sheet (f : OdsFeatures) (d : OdsDoc) (k : Nat) (h : d.length < k) :
@@ -72,20 +74,29 @@ theorem C15_bad_repeat :
       = some none) := by
   constructor <;> rfl
 
-/-- The full statement fails for the four other features: -/
+/-- The full statement still fails for row runs: -/
 theorem C15_row_runs_counterexample :
-    odsRows (some (encodeDoc { rowRuns := true } [[[['a']], [['a']]]])) 1 ≠ .rows [[some ['a']], [some ['a']]] := by decide
-theorem C15_whitespace_counterexample :
-    odsRows (some (encodeDoc { whitespace := true } [[["a  b".toList]]])) 1 ≠ .rows [[some "a  b".toList]] := by decide
-theorem C15_spans_counterexample :
-    odsRows (some (encodeDoc { spans := true } [[[['a']]]])) 1 ≠ .rows [[some ['a']]] := by decide
-theorem C15_paragraphs_counterexample :
-    odsRows (some (encodeDoc { paragraphs := true } [[["l1\nl2".toList]]])) 1 ≠ .rows [[some "l1\nl2".toList]] := by decide
+    odsRows (some (encodeDoc { rowRuns := true } [[[['a']], [['a']]]])) 1 ≠ .rows [[some ['a']], [some ['a']]] := by decide +kernel
 
-/-- non-vacuity: column runs on, two sheets: the hypotheses of the partial theorem are met -/
-example : odsRows (some (encodeDoc { colRuns := true } [[[['x']]], [[['a'], ['a'], ['a'], []], [['b']]]])) 2
+/-- the three mark-up features that used to lose text (findings C15:decode:whitespace-elements / spans / paragraphs, fixed):
+the reader now returns the text -/
+example : odsRows (some (encodeDoc { whitespace := true } [[["a  b\tc".toList]]])) 1 = .rows [[some "a  b\tc".toList]] := by decide +kernel
+example : odsRows (some (encodeDoc { spans := true } [[[['a']]]])) 1 = .rows [[some ['a']]] := by decide +kernel
+example : odsRows (some (encodeDoc { paragraphs := true, whitespace := true } [[["l1\nl  2".toList]]])) 1 = .rows [[some "l1\nl  2".toList]] := by
+  decide +kernel
+
+/-- non-vacuity: column runs and spans on, two sheets: the hypotheses of the theorem are met -/
+example : odsRows (some (encodeDoc { colRuns := true, spans := true } [[[['x']]], [[['a'], ['a'], ['a'], []], [['b']]]])) 2
     = .rows [[some ['a'], some ['a'], some ['a'], some []], [some ['b']]] :=
-  C15_decode_encode_partial { colRuns := true } ⟨rfl, rfl, rfl, rfl⟩ _ 2 (by decide) (by decide)
+  C15_decode_encode { colRuns := true, spans := true } rfl _ 2 (by decide) (by decide)
     (by intro r hr; simp at hr; rcases hr with rfl | rfl <;> simp [maxStrDigits] <;> exact Nat.lt_of_lt_of_le (by decide : _ < 10 ^ 1) (Nat.pow_le_pow_right (by decide) (by decide)))
+    (by
+      intro r hr t ht
+      have h1 : t.length ≤ 1 := by
+        simp at hr
+        rcases hr with rfl | rfl <;> simp at ht
+        · rcases ht with rfl | rfl <;> simp
+        · subst ht; simp
+      exact Nat.lt_of_le_of_lt h1 (Nat.one_lt_pow (by simp [maxStrDigits]) (by decide)))
 
 end Cutplace.Props
